@@ -9,10 +9,12 @@ import (
 	"bytes"
 	"fmt"
 	"math/rand"
+	"runtime"
 	"sort"
 	"strconv"
 	"strings"
 	"sync"
+	"sync/atomic"
 
 	"github.com/KevoDB/kevo/pkg/config"
 	"github.com/KevoDB/kevo/pkg/memtable"
@@ -48,6 +50,10 @@ func runC18(c *Case, out func(string)) {
 	}
 	if hdrVal(c.Hdr, "mode", "seq") == "pool" {
 		runC18Pool(c, out)
+		return
+	}
+	if hdrVal(c.Hdr, "mode", "seq") == "poolconc" {
+		runC18PoolConc(c, out)
 		return
 	}
 	mt := memtable.NewMemTable()
@@ -90,10 +96,10 @@ func runC18(c *Case, out func(string)) {
 	ties := 0
 	// a held iterator (hnew .. hdrain): created at one point, advanced while the writer goes on
 	var held *memtable.Iterator
-	heldLog := 0         // len(log) when the iterator was created
-	var heldFrom []byte  // target of the last positioning (nil: SeekToFirst)
-	heldPos := false     // positioned since creation
-	var yield []string   // what it stood on since the last positioning
+	heldLog := 0        // len(log) when the iterator was created
+	var heldFrom []byte // target of the last positioning (nil: SeekToFirst)
+	heldPos := false    // positioned since creation
+	var yield []string  // what it stood on since the last positioning
 	var yieldV []mver
 	heldSteps := 0
 	cur := func() {
@@ -764,6 +770,10 @@ func genC18(w *bufio.Writer, seed int64, n int, tier string) {
 			genC18Pool(w, r, fmt.Sprintf("c18-%d-%d", seed, ci))
 			continue
 		}
+		if ci%40 == 17 {
+			fmt.Fprintf(w, "case c18-%d-%d mode=poolconc n=%d every=%d\nend\n", seed, ci, 3000+r.Intn(3000), 4+r.Intn(12))
+			continue
+		}
 		conc := ci%10 == 9
 		if conc {
 			fmt.Fprintf(w, "case c18-%d-%d mode=conc\n", seed, ci)
@@ -829,4 +839,79 @@ func genC18(w *bufio.Writer, seed int64, n int, tier string) {
 		}
 		fmt.Fprintf(w, "end\n")
 	}
+}
+
+// mode=poolconc (oracle only): the pool used from several goroutines: one writer puts n distinct
+// keys, one goroutine seals the active table every few writes (SwitchToNewMemTable), readers get
+// the latest key. A Put that has returned is in some table of the pool: afterwards every key is
+// found by MemTablePool.Get with its value, and the tables together hold exactly n entries.
+func runC18PoolConc(c *Case, out func(string)) {
+	n, _ := strconv.Atoi(hdrVal(c.Hdr, "n", "4000"))
+	every, _ := strconv.Atoi(hdrVal(c.Hdr, "every", "8"))
+	cfg := config.NewDefaultConfig(tmpDir("c18pc-"))
+	cfg.MemTableSize = 1 << 30
+	cfg.MaxMemTableAge = 0
+	pool := memtable.NewMemTablePool(cfg)
+	var written atomic.Int64
+	var stop atomic.Bool
+	var wg sync.WaitGroup
+	key := func(i int64) []byte { return []byte(fmt.Sprintf("key-%08d", i)) }
+	wg.Add(1)
+	go func() { // sealer
+		defer wg.Done()
+		last := int64(0)
+		for !stop.Load() {
+			if w := written.Load(); w-last >= int64(every) {
+				pool.SwitchToNewMemTable()
+				last = w
+			} else {
+				runtime.Gosched()
+			}
+		}
+	}()
+	for r := 0; r < 3; r++ { // readers
+		wg.Add(1)
+		go func() {
+			defer wg.Done()
+			for !stop.Load() {
+				if w := written.Load(); w > 0 {
+					pool.Get(key(w))
+				}
+			}
+		}()
+	}
+	for i := int64(1); i <= int64(n); i++ {
+		pool.Put(key(i), []byte(fmt.Sprintf("v%d", i)), uint64(i))
+		written.Store(i)
+	}
+	stop.Store(true)
+	wg.Wait()
+	lost, wrong := 0, 0
+	first := ""
+	for i := int64(1); i <= int64(n); i++ {
+		v, found := pool.Get(key(i))
+		if !found {
+			lost++
+			if first == "" {
+				first = string(key(i))
+			}
+		} else if string(v) != fmt.Sprintf("v%d", i) {
+			wrong++
+		}
+	}
+	total := 0
+	for _, t := range pool.GetMemTables() {
+		it := t.NewIterator()
+		for it.SeekToFirst(); it.Valid(); it.Next() {
+			total++
+		}
+	}
+	if lost > 0 || wrong > 0 {
+		out(fmt.Sprintf("ORACLE FAIL %d of %d keys whose Put had returned are in no table of the pool (first: %s), %d have a wrong value", lost, n, first, wrong))
+	} else if total != n {
+		out(fmt.Sprintf("ORACLE FAIL the tables of the pool hold %d entries together, %d were put", total, n))
+	} else {
+		out("ORACLE ok")
+	}
+	out(fmt.Sprintf("META mode=poolconc puts=%d tables=%d nontrivial=1", n, len(pool.GetMemTables())))
 }
